@@ -1375,9 +1375,15 @@ func runEncodeCase(c *core.Ctx, t *tree, bucket string) {
 //	L  list (Elem)
 //	O  object (Names sorted, Fields)
 type sch struct {
-	Kind   byte
-	Prim   string // model text of the leaf type: b i<K> r<K> s y u d<K>:<prec>:<scale>
-	Plain  bool   // INT32/INT64 without annotation, decimal16 as BYTE_ARRAY
+	Kind  byte
+	Prim  string // model text of the leaf type: b i<K> r<K> s y u d<K>:<prec>:<scale>
+	Plain bool   // INT32/INT64 without annotation, decimal16 as BYTE_ARRAY
+	// Width: the physical layout of a decimal16 leaf in the file when the file
+	// is written the way other writers lay it out (see foreign.go): 0 = the
+	// library's own (16 bytes), n = 1..15 FIXED_LEN_BYTE_ARRAY(n), -1 =
+	// BYTE_ARRAY of minimal length, -2 = BYTE_ARRAY of minimal length plus a
+	// few sign bytes.
+	Width  int
 	Elem   *sch
 	Names  []string
 	Fields []*sch
@@ -1410,10 +1416,19 @@ func (s *sch) text() string {
 func (s *sch) replayText() string {
 	switch s.Kind {
 	case 'P':
+		r := "P" + s.Prim
 		if s.Plain {
-			return "P" + s.Prim + "!"
+			r += "!"
 		}
-		return "P" + s.Prim
+		switch {
+		case s.Width > 0:
+			r += fmt.Sprintf("@%d", s.Width)
+		case s.Width == -1:
+			r += "@m"
+		case s.Width == -2:
+			r += "@p"
+		}
+		return r
 	case 'L':
 		return "L" + s.Elem.replayText()
 	case 'O':
@@ -1443,13 +1458,29 @@ func (p *parser) sch() *sch {
 		return &sch{Kind: 'L', Elem: p.sch()}
 	case 'P':
 		b := p.p
-		for p.peek() != 0 && p.peek() != ',' && p.peek() != '}' && p.peek() != '!' {
+		for p.peek() != 0 && p.peek() != ',' && p.peek() != '}' && p.peek() != '!' && p.peek() != '@' {
 			p.p++
 		}
 		s := &sch{Kind: 'P', Prim: p.s[b:p.p]}
 		if p.peek() == '!' {
 			s.Plain = true
 			p.p++
+		}
+		if p.peek() == '@' {
+			p.p++
+			switch p.peek() {
+			case 'm':
+				s.Width = -1
+				p.p++
+			case 'p':
+				s.Width = -2
+				p.p++
+			default:
+				for p.peek() >= '0' && p.peek() <= '9' {
+					s.Width = s.Width*10 + int(p.peek()-'0')
+					p.p++
+				}
+			}
 		}
 		return s
 	case 'O':
@@ -1481,18 +1512,32 @@ func parseSch(s string) (r *sch, err error) {
 	return r, nil
 }
 
+// nodeOpts: dict = every typed leaf that can be (all but booleans) is
+// dictionary encoded; foreign = decimal16 leaves take the layout of Width.
+type nodeOpts struct{ dict, foreign bool }
+
 // typedNode is the parquet node handed to parquet.ShreddedVariant.
-func (s *sch) typedNode() parquet.Node {
+func (s *sch) typedNode() parquet.Node { return s.node(nodeOpts{}) }
+
+func (s *sch) node(o nodeOpts) parquet.Node {
 	switch s.Kind {
 	case 'L':
-		return parquet.List(s.Elem.typedNode())
+		return parquet.List(s.Elem.node(o))
 	case 'O':
 		g := parquet.Group{}
 		for i, f := range s.Fields {
-			g[s.Names[i]] = f.typedNode()
+			g[s.Names[i]] = f.node(o)
 		}
 		return g
 	}
+	n := s.leafNode(o.foreign)
+	if o.dict && n.Type().Kind() != parquet.Boolean {
+		n = parquet.Encoded(n, &parquet.RLEDictionary)
+	}
+	return n
+}
+
+func (s *sch) leafNode(foreign bool) parquet.Node {
 	p := s.Prim
 	switch p[0] {
 	case 'b':
@@ -1546,7 +1591,10 @@ func (s *sch) typedNode() parquet.Node {
 		case 1:
 			return parquet.Decimal(scale, prec, parquet.Int64Type)
 		default:
-			if s.Plain {
+			if foreign && s.Width > 0 {
+				return parquet.Decimal(scale, prec, parquet.FixedLenByteArrayType(s.Width))
+			}
+			if s.Plain || (foreign && s.Width < 0) {
 				return parquet.Decimal(scale, prec, parquet.ByteArrayType)
 			}
 			return parquet.Decimal(scale, prec, parquet.FixedLenByteArrayType(16))
@@ -1579,8 +1627,69 @@ func (g *gen) primType() *sch {
 			scale = prec
 		}
 		s.Prim = fmt.Sprintf("d%d:%x:%x", k, prec, scale)
+		if k == 2 && r.Intn(3) > 0 {
+			// the layouts of other writers: FIXED_LEN_BYTE_ARRAY of every width
+			// that holds the precision, BYTE_ARRAY of minimal / padded length
+			lo := decimalMinBytes(prec)
+			switch r.Intn(4) {
+			case 0:
+				s.Width = lo
+			case 1:
+				s.Width = lo + r.Intn(17-lo) // lo..16 (16 = the library's own: Width 0)
+				if s.Width == 16 {
+					s.Width = 0
+				}
+			case 2:
+				s.Width = -1
+			default:
+				s.Width = -2
+			}
+			s.Plain = s.Width < 0
+		}
 	}
 	return s
+}
+
+// decimalMinBytes: the least n such that every unscaled value of the
+// precision fits n bytes of two's complement.
+func decimalMinBytes(prec int) int {
+	max := new(big.Int).Exp(big.NewInt(10), big.NewInt(int64(prec)), nil)
+	max.Sub(max, big.NewInt(1))
+	for n := 1; ; n++ {
+		lim := new(big.Int).Lsh(big.NewInt(1), uint(8*n-1))
+		if max.Cmp(lim) < 0 {
+			return n
+		}
+	}
+}
+
+// decimalWithin: an unscaled decimal16 value of at most prec digits: the
+// bounds, the values around the sign-byte boundaries of every width, random
+// magnitudes of every length; negative half of the time.
+func (g *gen) decimalWithin(prec int) []byte {
+	r := g.c.Rng
+	bound := new(big.Int).Exp(big.NewInt(10), big.NewInt(int64(prec)), nil)
+	z := new(big.Int)
+	switch r.Intn(5) {
+	case 0:
+		z.Sub(bound, big.NewInt(1))
+	case 1:
+		z.SetInt64(int64(r.Intn(3)))
+	case 2:
+		// 2^(8k-1) - 1, 2^(8k-1), 2^(8k-1) + 1: the last value of a width and the first of the next
+		z.Lsh(big.NewInt(1), uint(8*(1+r.Intn(16))-1))
+		z.Add(z, big.NewInt(int64(r.Intn(3)-1)))
+	default:
+		digits := 1 + r.Intn(prec)
+		z.Rand(r, new(big.Int).Exp(big.NewInt(10), big.NewInt(int64(digits)), nil))
+	}
+	if z.CmpAbs(bound) >= 0 {
+		z.Mod(z, bound)
+	}
+	if r.Intn(2) == 0 {
+		z.Neg(z)
+	}
+	return d16FromBig(z)
 }
 
 func (g *gen) schema(depth int) *sch {
@@ -1654,12 +1763,15 @@ func (g *gen) valueFor(s *sch, depth int, native bool) *tree {
 				continue
 			}
 			if primMatches(s.Prim, t) {
-				if t.Kind == 'd' && r.Intn(2) == 0 {
+				if t.Kind == 'd' && r.Intn(4) > 0 {
 					var k, prec, scale int
 					fmt.Sscanf(s.Prim, "d%d:%x:%x", &k, &prec, &scale)
 					t.Scale = byte(scale)
 					if t.K < 2 && r.Intn(2) == 0 {
 						t.I %= 1000
+					}
+					if t.K == 2 && r.Intn(4) > 0 {
+						t.D = g.decimalWithin(prec)
 					}
 				}
 				return t
@@ -1717,9 +1829,17 @@ type fileCase struct {
 	Path     string   `json:"path"`  // writer | buffer | rows
 	PageBuf  int      `json:"page_buffer"`
 	Rows     []string `json:"rows"`
+	plus
 }
 
-func (fc *fileCase) build() (s *sch, schema *parquet.Schema, rows []*tree, err error) {
+// bulk: many rows (pages, dictionaries); the per-row model questions are
+// asked of the small cases only.
+func (fc *fileCase) bulk() bool { return len(fc.Rows) > 16 }
+
+// build returns the shredding schema, the file schema the library's own
+// shredding writer fills (schema), and, when a leaf has the layout of another
+// writer, the schema of the file as stored (fschema, else nil).
+func (fc *fileCase) build() (s *sch, schema, fschema *parquet.Schema, rows []*tree, err error) {
 	defer func() {
 		if r := recover(); r != nil {
 			err = fmt.Errorf("schema construction panicked: %v", r)
@@ -1728,16 +1848,29 @@ func (fc *fileCase) build() (s *sch, schema *parquet.Schema, rows []*tree, err e
 	if s, err = parseSch(fc.Schema); err != nil {
 		return
 	}
-	var node parquet.Node
-	if s.Kind == 'N' {
-		node = parquet.Variant()
-	} else if node, err = parquet.ShreddedVariant(s.typedNode()); err != nil {
+	mk := func(o nodeOpts) (*parquet.Schema, error) {
+		var node parquet.Node
+		if s.Kind == 'N' {
+			node = parquet.Variant()
+		} else {
+			var e error
+			if node, e = parquet.ShreddedVariant(s.node(o)); e != nil {
+				return nil, e
+			}
+		}
+		if fc.Optional {
+			node = parquet.Optional(node)
+		}
+		return parquet.NewSchema("table", parquet.Group{"id": parquet.Int(32), "var": node}), nil
+	}
+	if schema, err = mk(nodeOpts{dict: fc.Dict == "typed"}); err != nil {
 		return
 	}
-	if fc.Optional {
-		node = parquet.Optional(node)
+	if s.foreign() {
+		if fschema, err = mk(nodeOpts{dict: fc.Dict == "typed", foreign: true}); err != nil {
+			return
+		}
 	}
-	schema = parquet.NewSchema("table", parquet.Group{"id": parquet.Int(32), "var": node})
 	for _, r := range fc.Rows {
 		if r == "" {
 			rows = append(rows, nil)
@@ -1753,7 +1886,15 @@ func (fc *fileCase) build() (s *sch, schema *parquet.Schema, rows []*tree, err e
 	return
 }
 
-func (fc *fileCase) write(schema *parquet.Schema, rows []*tree) (data []byte, err error) {
+func (fc *fileCase) writerOptions() []parquet.WriterOption {
+	opts := []parquet.WriterOption{parquet.DataPageVersion(fc.PageV)}
+	if fc.PageBuf > 0 {
+		opts = append(opts, parquet.PageBufferSize(fc.PageBuf))
+	}
+	return append(opts, fc.plus.writerOptions()...)
+}
+
+func (fc *fileCase) write(s *sch, schema, fschema *parquet.Schema, rows []*tree) (data []byte, err error) {
 	defer func() {
 		if r := recover(); r != nil {
 			err = fmt.Errorf("panic: %v", r)
@@ -1775,11 +1916,17 @@ func (fc *fileCase) write(schema *parquet.Schema, rows []*tree) (data []byte, er
 			in[i].Var = rawVariant{Metadata: meta, Value: val}
 		}
 	}
-	buf := new(bytes.Buffer)
-	opts := []parquet.WriterOption{schema, parquet.DataPageVersion(fc.PageV)}
-	if fc.PageBuf > 0 {
-		opts = append(opts, parquet.PageBufferSize(fc.PageBuf))
+	if fschema != nil {
+		// the layout of another writer: the library shreds the rows, the leaf
+		// values are re-laid out and stored through the row API
+		dec := make([]parquet.Row, len(in))
+		for i := range in {
+			dec[i] = schema.Deconstruct(nil, &in[i])
+		}
+		return writeForeign(schema, fschema, dec, s.leafWidths([]string{"var"}), fc.writerOptions())
 	}
+	buf := new(bytes.Buffer)
+	opts := append([]parquet.WriterOption{schema}, fc.writerOptions()...)
 	w := parquet.NewGenericWriter[rowAny](buf, opts...)
 	switch fc.Path {
 	case "buffer":
@@ -1801,6 +1948,9 @@ func (fc *fileCase) write(schema *parquet.Schema, rows []*tree) (data []byte, er
 	default:
 		for i := 0; i < len(in); {
 			k := 1 + (i*7+3)%4
+			if fc.bulk() {
+				k = 16 + (i*7+3)%48
+			}
 			if i+k > len(in) {
 				k = len(in) - i
 			}
@@ -1903,17 +2053,23 @@ func protect(f func() error) (err error) {
 	return f()
 }
 
-// checkFile writes the file and reads it back in the three forms.
+// checkFile writes the file and reads it back in every form; then writes the
+// same rows through the columnar writer and reads that file back too; then
+// reads the file through reader schemas that differ around the variant column.
 func checkFile(c *core.Ctx, fc *fileCase) {
-	s, schema, rows, err := fc.build()
+	s, schema, fschema, rows, err := fc.build()
 	if err != nil {
 		c.Violation("schema-rejected", "a shredding schema of the supported class is rejected: "+err.Error(), fc)
 		return
 	}
-	data, err := fc.write(schema, rows)
+	data, err := fc.write(s, schema, fschema, rows)
 	if err != nil {
 		c.Violation("file-write-error", fmt.Sprintf("writing %s/%s: %v", fc.Write, fc.Path, err), fc)
 		return
+	}
+	rschema := schema
+	if fschema != nil {
+		rschema = fschema
 	}
 	n := len(rows)
 	want := make([]string, n)
@@ -1927,104 +2083,53 @@ func checkFile(c *core.Ctx, fc *fileCase) {
 			want[i] = "n" // a nil value in a required variant column is variant null
 		}
 	}
-	size := int64(len(data))
-	bad := func(class, form string, i int, got string) {
-		c.Violation(class, fmt.Sprintf("schema %s optional=%v v%d %s/%s write, %s read: row %d reads back as %s, written %s",
-			fc.Schema, fc.Optional, fc.PageV, fc.Write, fc.Path, form, i, core.Trunc(got, 300), core.Trunc(want[i], 300)), fc)
-	}
-	// typed read
-	if err := protect(func() error {
-		r := parquet.NewGenericReader[rowAny](bytes.NewReader(data), schema)
-		defer r.Close()
-		out := make([]rowAny, n)
-		if k, err := r.Read(out); k != n && err != nil && err != io.EOF {
-			return err
-		} else if k != n {
-			return fmt.Errorf("read %d of %d rows", k, n)
-		}
-		for i := range out {
-			exp := "nil"
-			if rows[i] != nil {
-				exp = anyText(rows[i].goAny())
-			}
-			if got := anyText(out[i].Var); got != exp || out[i].ID != int32(i) {
-				c.Violation("typed-read-differs", fmt.Sprintf("schema %s optional=%v v%d %s/%s write, typed read: row %d reads back as %s, want %s",
-					fc.Schema, fc.Optional, fc.PageV, fc.Write, fc.Path, i, core.Trunc(got, 300), core.Trunc(exp, 300)), fc)
-				return nil
-			}
-		}
-		return nil
-	}); err != nil {
-		c.Violation("typed-read-error", err.Error(), fc)
-	}
-	decodeRaw := func(form string, i int, meta, val []byte, null bool) bool {
-		if null || (len(meta) == 0 && len(val) == 0) {
-			if want[i] != "" {
-				bad("raw-read-differs", form, i, "null")
-				return false
-			}
-			return true
-		}
-		t, err := goDecode(meta, val)
+	fc.verify(c, s, rschema, data, rows, want, fmt.Sprintf("%s/%s write", fc.Write, fc.Path))
+
+	// the same rows through the columnar writer (variant_column_writer.go)
+	if fschema == nil {
+		data2, err := colWrite(schema, []string{"var"}, rows, nil, fc.Optional, fc.writerOptions())
 		if err != nil {
-			bad("raw-read-differs", form, i, "undecodable bytes ("+err.Error()+")")
-			return false
+			c.Violation("columnar-write-error", fmt.Sprintf("schema %s optional=%v: VariantColumnWriter: %v", fc.Schema, fc.Optional, err), fc)
+		} else {
+			fc.verify(c, s, schema, data2, rows, want, "columnar write")
 		}
-		if got := t.canonText(); got != want[i] {
-			bad("raw-read-differs", form, i, got)
-			return false
-		}
-		if c.HasOracle() && want[i] != "" {
-			if back := c.Ask("c19.decode " + core.Hexs(meta) + " " + core.Hexs(val)); back != want[i] {
-				c.Mismatch("corr:C19.decode-readback", form+" read bytes", want[i], back, fc)
-				return false
-			}
-		}
-		return true
 	}
-	// raw read through the file's own schema
-	if err := protect(func() error {
-		r := parquet.NewGenericReader[rowRawP](bytes.NewReader(data), schema)
-		defer r.Close()
-		out := make([]rowRawP, n)
-		if k, err := r.Read(out); k != n && err != nil && err != io.EOF {
-			return err
-		} else if k != n {
-			return fmt.Errorf("read %d of %d rows", k, n)
-		}
-		for i := range out {
-			var m, v []byte
-			if out[i].Var != nil {
-				m, v = out[i].Var.Metadata, out[i].Var.Value
-			}
-			if !decodeRaw("raw", i, m, v, out[i].Var == nil) {
-				return nil
+
+	// reader schemas that add / drop / reorder columns around the variant column
+	if fc.Evo != nil {
+		in := make([]rowAny, n)
+		for i, t := range rows {
+			in[i].ID = int32(i)
+			if t != nil {
+				meta, val, e := goEncode(t)
+				if e != nil {
+					c.Violation("encode-error", e.Error(), fc)
+					return
+				}
+				in[i].Var = rawVariant{Metadata: meta, Value: val}
 			}
 		}
-		return nil
-	}); err != nil {
-		c.Violation("raw-read-error", err.Error(), fc)
+		narrow := make([]parquet.Row, n)
+		if err := protect(func() error {
+			for i := range in {
+				narrow[i] = schema.Deconstruct(nil, &in[i])
+			}
+			return nil
+		}); err != nil {
+			c.Violation("file-write-error", "Deconstruct: "+err.Error(), fc)
+			return
+		}
+		items := make([][]string, n)
+		for i := range want {
+			items[i] = []string{want[i]}
+		}
+		checkEvolve(c, &evoCtx{nest: "top", path: []string{"var"}, s: s, dict: fc.Dict == "typed", optional: fc.Optional,
+			narrow: schema, rows: narrow, want: items, absent: make([]bool, n), opts: fc.writerOptions(), evo: fc.Evo,
+			where: fmt.Sprintf("schema %s optional=%v v%d", fc.Schema, fc.Optional, fc.PageV), replay: fc, model: !fc.bulk()})
 	}
-	// conversion to an unshredded variant column (convert_variant.go)
-	if err := protect(func() error {
-		out, err := parquet.Read[rowRaw](bytes.NewReader(data), size)
-		if err != nil {
-			return err
-		}
-		if len(out) != n {
-			return fmt.Errorf("read %d of %d rows", len(out), n)
-		}
-		for i := range out {
-			if !decodeRaw("convert-to-unshredded", i, out[i].Var.Metadata, out[i].Var.Value, false) {
-				return nil
-			}
-		}
-		return nil
-	}); err != nil {
-		c.Violation("convert-read-error", err.Error(), fc)
-	}
+
 	// what the file stores == the model's shredding of the value
-	if c.HasOracle() {
+	if c.HasOracle() && fschema == nil && !fc.bulk() {
 		cols, err := fileColumns(data, n)
 		if err != nil {
 			c.Violation("file-scan-error", err.Error(), fc)
@@ -2077,62 +2182,248 @@ func checkFile(c *core.Ctx, fc *fileCase) {
 			}
 		}
 	}
+	// the typed leaves as other writers lay them out: the model's leaf reader on the stored bytes
+	if c.HasOracle() && fschema != nil && !fc.bulk() {
+		checkForeignLeaves(c, data, fschema, s, []string{"var"}, fc)
+	}
 }
 
-func shrinkFile(c *core.Ctx, fc *fileCase) *fileCase {
-	fails := func(x *fileCase) bool { return c.Probe(func() { checkFile(c, x) }) }
-	cur := *fc
-	// single rows first
-	for i := range fc.Rows {
-		t := cur
-		t.Rows = []string{fc.Rows[i]}
-		if fails(&t) {
-			cur = t
-			break
-		}
+// verify reads data (a file of schema holding rows) typed, raw through its own
+// schema, converted to unshredded, and through the columnar reader; every row
+// must read back as want[i] ("" = a null row).
+func (fc *fileCase) verify(c *core.Ctx, s *sch, schema *parquet.Schema, data []byte, rows []*tree, want []string, how string) {
+	n := len(rows)
+	size := int64(len(data))
+	where := fmt.Sprintf("schema %s optional=%v v%d %s", fc.Schema, fc.Optional, fc.PageV, how)
+	if o := fc.plus.text(); o != "" {
+		where += " " + o
 	}
-	for changed := true; changed && len(cur.Rows) > 1; {
-		changed = false
-		for i := range cur.Rows {
-			t := cur
-			t.Rows = append(append([]string{}, cur.Rows[:i]...), cur.Rows[i+1:]...)
-			if fails(&t) {
-				cur, changed = t, true
+	bad := func(class, form string, i int, got string) {
+		c.Violation(class, fmt.Sprintf("%s, %s read: row %d reads back as %s, written %s",
+			where, form, i, core.Trunc(got, 300), core.Trunc(want[i], 300)), fc)
+	}
+	// typed read
+	if err := protect(func() error {
+		r := parquet.NewGenericReader[rowAny](bytes.NewReader(data), schema)
+		defer r.Close()
+		out := make([]rowAny, n)
+		if k, err := r.Read(out); k != n && err != nil && err != io.EOF {
+			return err
+		} else if k != n {
+			return fmt.Errorf("read %d of %d rows", k, n)
+		}
+		for i := range out {
+			exp := "nil"
+			if rows[i] != nil {
+				exp = anyText(rows[i].goAny())
+			}
+			if got := anyText(out[i].Var); got != exp || out[i].ID != int32(i) {
+				c.Violation("typed-read-differs", fmt.Sprintf("%s, typed read: row %d reads back as %s, want %s",
+					where, i, core.Trunc(got, 300), core.Trunc(exp, 300)), fc)
+				return nil
+			}
+		}
+		return nil
+	}); err != nil {
+		c.Violation("typed-read-error", where+": "+err.Error(), fc)
+	}
+	decodeRaw := func(form string, i int, meta, val []byte, null bool) bool {
+		if null || (len(meta) == 0 && len(val) == 0) {
+			if want[i] != "" {
+				bad("raw-read-differs", form, i, "null")
+				return false
+			}
+			return true
+		}
+		t, err := goDecode(meta, val)
+		if err != nil {
+			bad("raw-read-differs", form, i, "undecodable bytes ("+err.Error()+")")
+			return false
+		}
+		if got := t.canonText(); got != want[i] {
+			bad("raw-read-differs", form, i, got)
+			return false
+		}
+		if c.HasOracle() && want[i] != "" && !fc.bulk() {
+			if back := c.Ask("c19.decode " + core.Hexs(meta) + " " + core.Hexs(val)); back != want[i] {
+				c.Mismatch("corr:C19.decode-readback", form+" read bytes", want[i], back, fc)
+				return false
+			}
+		}
+		return true
+	}
+	// raw read through the file's own schema
+	if err := protect(func() error {
+		r := parquet.NewGenericReader[rowRawP](bytes.NewReader(data), schema)
+		defer r.Close()
+		out := make([]rowRawP, n)
+		if k, err := r.Read(out); k != n && err != nil && err != io.EOF {
+			return err
+		} else if k != n {
+			return fmt.Errorf("read %d of %d rows", k, n)
+		}
+		for i := range out {
+			var m, v []byte
+			if out[i].Var != nil {
+				m, v = out[i].Var.Metadata, out[i].Var.Value
+			}
+			if !decodeRaw("raw", i, m, v, out[i].Var == nil) {
+				return nil
+			}
+		}
+		return nil
+	}); err != nil {
+		c.Violation("raw-read-error", where+": "+err.Error(), fc)
+	}
+	// conversion to an unshredded variant column (convert_variant.go)
+	if err := protect(func() error {
+		out, err := parquet.Read[rowRaw](bytes.NewReader(data), size)
+		if err != nil {
+			return err
+		}
+		if len(out) != n {
+			return fmt.Errorf("read %d of %d rows", len(out), n)
+		}
+		for i := range out {
+			if !decodeRaw("convert-to-unshredded", i, out[i].Var.Metadata, out[i].Var.Value, false) {
+				return nil
+			}
+		}
+		return nil
+	}); err != nil {
+		c.Violation("convert-read-error", where+": "+err.Error(), fc)
+	}
+	// the columnar reader (variant_column_reader.go)
+	got, err := colRead(data, s, []string{"var"}, fc.Window, fc.Late)
+	switch {
+	case err != nil:
+		c.Violation("columnar-read-error", where+", columnar read: "+err.Error(), fc)
+	case len(got) != n:
+		c.Violation("columnar-read-error", fmt.Sprintf("%s, columnar read: %d of %d rows", where, len(got), n), fc)
+	default:
+		for i := range got {
+			if got[i] != want[i] {
+				g := got[i]
+				if g == "" {
+					g = "null"
+				}
+				bad("columnar-read-differs", "columnar", i, g)
 				break
 			}
 		}
 	}
-	for _, simpler := range []func(*fileCase){
+}
+
+func shrinkFile(c *core.Ctx, fc *fileCase) *fileCase {
+	budget := 400
+	fails := func(x *fileCase) bool {
+		if budget <= 0 {
+			return false
+		}
+		budget--
+		return c.Probe(func() { checkFile(c, x) })
+	}
+	cur := *fc
+	// single rows first
+	if len(fc.Rows) <= 16 {
+		for i := range fc.Rows {
+			t := cur
+			t.Rows = []string{fc.Rows[i]}
+			if fails(&t) {
+				cur = t
+				break
+			}
+		}
+	}
+	// drop runs of rows: halves, quarters, ..., single rows
+	for chunk := (len(cur.Rows) + 1) / 2; chunk >= 1 && len(cur.Rows) > 1; {
+		changed := false
+		for lo := 0; lo < len(cur.Rows) && len(cur.Rows) > 1; {
+			hi := lo + chunk
+			if hi > len(cur.Rows) {
+				hi = len(cur.Rows)
+			}
+			t := cur
+			t.Rows = append(append([]string{}, cur.Rows[:lo]...), cur.Rows[hi:]...)
+			if len(t.Rows) > 0 && fails(&t) {
+				cur, changed = t, true
+			} else {
+				lo = hi
+			}
+		}
+		if chunk == 1 && !changed {
+			break
+		}
+		if chunk > 1 {
+			chunk = (chunk + 1) / 2
+		}
+	}
+	// the options of the case, one at a time
+	simplers := []func(*fileCase){
+		func(x *fileCase) { x.Evo = nil },
+		func(x *fileCase) { x.Dict, x.DictMax = "", 0 },
+		func(x *fileCase) { x.Late = false },
+		func(x *fileCase) { x.Window = 0 },
 		func(x *fileCase) { x.Optional = false },
 		func(x *fileCase) { x.Path = "writer" },
 		func(x *fileCase) { x.PageBuf = 0 },
 		func(x *fileCase) { x.PageV = 1 },
-	} {
+	}
+	for _, simpler := range simplers {
 		t := cur
 		simpler(&t)
 		if fails(&t) {
 			cur = t
 		}
 	}
-	for i, r := range cur.Rows {
-		if r == "" {
-			continue
-		}
-		t0, err := parseTree(r)
-		if err != nil {
-			continue
-		}
-		min := shrinkTree(t0, func(x *tree) bool {
-			if cur.Write == "typed" && !x.native() {
-				return false
+	if cur.Evo != nil {
+		for changed := true; changed; {
+			changed = false
+			for _, e := range cur.Evo.simpler() {
+				t := cur
+				t.Evo = e
+				if fails(&t) {
+					cur, changed = t, true
+					break
+				}
 			}
-			t := cur
-			t.Rows = append([]string{}, cur.Rows...)
-			t.Rows[i] = x.text()
-			return fails(&t)
-		})
-		cur.Rows = append([]string{}, cur.Rows...)
-		cur.Rows[i] = min.text()
+		}
+	}
+	// simpler shredding schemas
+	if s0, err := parseSch(cur.Schema); err == nil {
+		for changed := true; changed && budget > 0; {
+			changed = false
+			for _, cand := range s0.simpler() {
+				t := cur
+				t.Schema = cand.replayText()
+				if fails(&t) {
+					cur, s0, changed = t, cand, true
+					break
+				}
+			}
+		}
+	}
+	if len(cur.Rows) <= 16 {
+		for i, r := range cur.Rows {
+			if r == "" {
+				continue
+			}
+			t0, err := parseTree(r)
+			if err != nil {
+				continue
+			}
+			min := shrinkTree(t0, func(x *tree) bool {
+				if cur.Write == "typed" && !x.native() {
+					return false
+				}
+				t := cur
+				t.Rows = append([]string{}, cur.Rows...)
+				t.Rows[i] = x.text()
+				return fails(&t)
+			})
+			cur.Rows = append([]string{}, cur.Rows...)
+			cur.Rows[i] = min.text()
+		}
 	}
 	return &cur
 }
@@ -2315,11 +2606,36 @@ func runC19(c *core.Ctx) {
 				vmShred = append(vmShred, fmt.Sprintf("(%s, %s)", s.coq(), t.coq()))
 			}
 		}
+		fc.plus = g.plus("top", false)
 		runFileCase(c, fc, fmt.Sprintf("file/%c/%s", s.Kind, fc.Write))
 		if i < 2 {
 			c.Sample(fc)
 		}
 	}
+	// many rows: pages of a few values, dictionary-encoded leaves whose
+	// dictionary outgrows DictionaryMaxBytes after the first pages (the rest of
+	// the chunk is PLAIN), read in windows of every size
+	nBulk := c.N(70, 2500)
+	for i := 0; i < nBulk; i++ {
+		s := g.bulkSchema()
+		fc := &fileCase{Mode: "file", Schema: s.replayText(), Optional: c.Rng.Intn(2) == 0, PageV: 1 + c.Rng.Intn(2),
+			Write: "raw", Path: []string{"writer", "writer", "buffer", "rows"}[c.Rng.Intn(4)], PageBuf: 64 << uint(c.Rng.Intn(5))}
+		fc.plus = g.plus("top", true)
+		nrows := 40 + c.Rng.Intn(260)
+		for r := 0; r < nrows; r++ {
+			if fc.Optional && c.Rng.Intn(9) == 0 {
+				fc.Rows = append(fc.Rows, "")
+				continue
+			}
+			fc.Rows = append(fc.Rows, g.valueFor(s, 1+c.Rng.Intn(3), false).text())
+		}
+		mixed := runBulkCase(c, fc)
+		if i < 1 {
+			c.Sample(map[string]any{"mode": "file", "schema": fc.Schema, "rows": len(fc.Rows), "page_buffer": fc.PageBuf, "options": fc.plus.text(), "chunks_mixing_dictionary_and_plain_pages": mixed})
+		}
+	}
+	// decimal leaves of every width other writers store (widen.go)
+	runForeignCorpus(c, g)
 	// boundary values through a shredded file: a partially shredded object holding large values
 	for _, t := range g.boundaries() {
 		if t.size() > 400 || c.Rng.Intn(3) > 0 {
@@ -2363,6 +2679,8 @@ func runC19(c *core.Ctx) {
 	c.Vm("Definition mismatches := (map (fun '(v, _, _) => (SNone, v)) enc_bad) ++ shred_bad ++ map (fun '(sizes, _) => (SNone, VArray (map (fun n => VInt I64 (Z.of_N n)) sizes))) hdr_bad.")
 	c.Vm("Definition M := Eval vm_compute in ((length enc_cases + length shred_cases + length hdr_cases)%nat, mismatches).\nPrint M.")
 	c.Res.VmCases = len(vmEnc) + len(vmShred) + len(vmHeaders)
+	c.Note("part 8 (widen.go) reached: %d columnar reads (%d with cursors created after the first Next and SeekToRow(0)), %d files written by VariantColumnWriter, %d files in the layout of other writers holding %d typed decimals narrower than 16 bytes (%d negative), %d reads through evolved reader schemas (%d nested; %d with a column added before the variant column, %d with one dropped before it, %d with fields out of name order)",
+		reach.colReads, reach.colReadsLate, reach.colWrites, reach.foreignFiles, reach.narrowLeaves, reach.narrowNegativeLeaves, reach.evolved, reach.evolvedNested, reach.addedBefore, reach.droppedBefore, reach.reordered)
 	c.Note("float32 values are generated without signalling NaNs: variant.Value keeps a float32 as float64 and the conversion quiets them (hardware behaviour; stated assumption)")
 	c.Note("typed writes use only kinds with a Go-native mapping (variant.ValueOf); dates, times, *_ntz timestamps and decimals enter through raw writes")
 }
